@@ -78,8 +78,17 @@ def _index(mod: Module):
         elif isinstance(node, ast.AnnAssign) and isinstance(node.target, ast.Name) and node.value is not None:
             mod.consts[node.target.id] = node.value
         elif isinstance(node, ast.ImportFrom):
+            modname = node.module or ""
+            if node.level:
+                pkg = mod.relpath[:-3].replace("/", ".").split(".")
+                if pkg[-1] == "__init__":
+                    pkg = pkg[:-1]
+                    base = pkg[: len(pkg) - (node.level - 1)]
+                else:
+                    base = pkg[: len(pkg) - node.level]
+                modname = ".".join(base + ([node.module] if node.module else []))
             for a in node.names:
-                mod.imports[a.asname or a.name] = (node.module or "", a.name)
+                mod.imports[a.asname or a.name] = (modname, a.name)
         elif isinstance(node, ast.Import):
             for a in node.names:
                 mod.imports[(a.asname or a.name).split(".")[0]] = (a.name, None)
